@@ -218,7 +218,98 @@ func genC16(repo string) (string, error) {
 		return "", err
 	}
 	fmt.Fprintf(&b, "def literalComparisonShape : List (String × String × String) := %s\n", lc)
+
+	// lake/data/writer.go: how an object's (and a seek entry's) Min/Max are taken.
+	wf, err := parseFile(repo, "lake/data/writer.go")
+	if err != nil {
+		return "", err
+	}
+	minGuard, maxGuard, err := c16BoundGuards(wf)
+	if err != nil {
+		return "", err
+	}
+	fmt.Fprintf(&b, "def objectMinGuard : String := %s\n", leanStr(minGuard))
+	fmt.Fprintf(&b, "def objectMaxGuard : String := %s\n", leanStr(maxGuard))
+	for _, fn := range []string{"Close", "flushSeekIndex"} {
+		sw, err := c16DescSwap(wf, fn)
+		if err != nil {
+			return "", err
+		}
+		fmt.Fprintf(&b, "def descSwap%s : String := %s\n", fn, leanStr(sw))
+	}
 	return b.String(), nil
+}
+
+// c16BoundGuards reports the innermost conditions under which w.object.Min / w.object.Max
+// are assigned from the current key ("" = unconditionally) in writeIndex / WriteWithKey.
+func c16BoundGuards(f *file) (string, string, error) {
+	guard := func(fn, target string) (string, error) {
+		fd, err := f.funcDecl("Writer", fn)
+		if err != nil {
+			return "", err
+		}
+		found, cond := false, ""
+		var walk func(n ast.Node, conds []string)
+		walk = func(n ast.Node, conds []string) {
+			switch n := n.(type) {
+			case *ast.BlockStmt:
+				for _, s := range n.List {
+					walk(s, conds)
+				}
+			case *ast.IfStmt:
+				walk(n.Body, append(append([]string{}, conds...), renderExpr(f, n.Cond)))
+				if n.Else != nil {
+					walk(n.Else, append(append([]string{}, conds...), "!("+renderExpr(f, n.Cond)+")"))
+				}
+			case *ast.ExprStmt:
+				if renderExpr(f, n.X) == target {
+					found = true
+					cond = strings.Join(conds, " && ")
+				}
+			}
+		}
+		walk(fd.Body, nil)
+		if !found {
+			return "", fmt.Errorf("%s: %s not found in Writer.%s", f.path, target, fn)
+		}
+		return cond, nil
+	}
+	minG, err := guard("writeIndex", "w.object.Min.CopyFrom(key)")
+	if err != nil {
+		return "", "", err
+	}
+	maxG, err := guard("WriteWithKey", "w.object.Max.CopyFrom(key)")
+	if err != nil {
+		return "", "", err
+	}
+	return minG, maxG, nil
+}
+
+// c16DescSwap renders `if <cond> { a, b = b, a }` found in Writer.fn as "<cond> => a,b=b,a".
+func c16DescSwap(f *file, fn string) (string, error) {
+	fd, err := f.funcDecl("Writer", fn)
+	if err != nil {
+		return "", err
+	}
+	out := ""
+	ast.Inspect(fd.Body, func(n ast.Node) bool {
+		ifs, ok := n.(*ast.IfStmt)
+		if !ok || len(ifs.Body.List) != 1 {
+			return true
+		}
+		as, ok := ifs.Body.List[0].(*ast.AssignStmt)
+		if !ok || len(as.Lhs) != 2 || len(as.Rhs) != 2 {
+			return true
+		}
+		if renderExpr(f, as.Lhs[0]) == renderExpr(f, as.Rhs[1]) && renderExpr(f, as.Lhs[1]) == renderExpr(f, as.Rhs[0]) {
+			out = renderExpr(f, ifs.Cond) + " => swap(" + renderExpr(f, as.Lhs[0]) + "," + renderExpr(f, as.Lhs[1]) + ")"
+		}
+		return true
+	})
+	if out == "" {
+		return "", fmt.Errorf("%s: no min/max swap found in Writer.%s", f.path, fn)
+	}
+	return out, nil
 }
 
 // compareAtom recognises compare("op", x, y) with x,y in {literal,min,max}.
